@@ -492,6 +492,19 @@ def method_ghosts():
             "has_key": lambda d, k: k in d, "mcall": lambda name, obj, *a: getattr(obj, name)(*a)}
 
 
+class _AnyCount:
+    """natively a call count is not observable: every comparison with it holds"""
+
+    def __eq__(self, other):
+        return True
+
+    def __ne__(self, other):
+        return False
+
+    __lt__ = __le__ = __gt__ = __ge__ = __eq__
+    __hash__ = None
+
+
 def run_method_scenarios(c, mod, clauses, stop_after=4):
     """c.scenarios(mod) -> [(label, factory() -> (callable, {param: value}))].  Evaluates the clauses natively on the real
     method; `old(expr)` is evaluated before the call."""
@@ -516,6 +529,7 @@ def run_method_scenarios(c, mod, clauses, stop_after=4):
                 return True
             except Exception:  # noqa: BLE001
                 return False
+        env0["mcalls"] = lambda name: _AnyCount()     # call counts are a matter of the symbolic call log only
         env0["opaque_res"] = lambda name, *a: _opq(name)(*a)
         env0["opaque_ok"] = opaque_ok
         env0.update(c.consts)
